@@ -242,6 +242,10 @@ def linearize(t):
     k = t[0]
     if k == 'c':
         return Lin.const(t[1])
+    if k == 'cast' and not ('*' in t[1] or 'float' in t[1] or 'double' in t[1]):
+        # integers are mathematical in K4: integral conversions are value preserving
+        # (wrap-around is the business of the K4o rules)
+        return linearize(t[2])
     if k == '+':
         return linearize(t[1]) + linearize(t[2])
     if k == '-':
@@ -358,6 +362,40 @@ class Path:
         return self.mem.get(key, key)
 
 
+def field_of_value(sv, field):
+    if sv[0] in ('f', 'i', 'v'):
+        return ('f', ('&', sv), field)
+    if sv[0] == 'struct':
+        for f, v in sv[2]:
+            if f == field:
+                return v
+        if sv[1] is None:
+            return C(0)
+        return field_of_value(sv[1], field)
+    return ('fv', sv, field)
+
+
+def mem_struct_value(mem, K):
+    if K in mem:
+        return mem[K]
+    if K[0] == 'f' and K[1][0] == '&':
+        parent = mem_struct_value(mem, K[1][1])
+        if parent is not None:
+            return field_of_value(parent, K[2])
+    return None
+
+
+def mem_read(mem, key, default=None):
+    """value of location key in a final memory map (struct-aware)"""
+    if key in mem:
+        return mem[key]
+    if key[0] == 'f' and key[1][0] == '&':
+        sv = mem_struct_value(mem, key[1][1])
+        if sv is not None:
+            return field_of_value(sv, key[2])
+    return key if default is None else default
+
+
 class Engine:
     """Enumerates paths of functions of a unit (with optional inlining of
     callees from this or other units)."""
@@ -401,6 +439,50 @@ class Engine:
         act.run(u.body(fname), st)
         self.npaths += len(out)
         return out
+
+    def is_pure(self, name, _stack=()):
+        """syntactic purity: the function (and everything it calls) never stores through
+        a pointer / into a global and makes no indirect call"""
+        c = self.__dict__.setdefault('_pure_cache', {})
+        if name in c:
+            return c[name]
+        if name in self.pure or name in PURE_FUNCTIONS:
+            return True
+        if name in _stack:
+            return True
+        u, f = self.find_fn(name)
+        if f is None:
+            c[name] = False
+            return False
+        gids = getattr(u, '_global_ids', None)
+        if gids is None:
+            gids = u._global_ids = {g['id'] for g in u.globals.values()}
+        res = True
+        for x in cast.walk(f):
+            kd = cast.kind(x)
+            tgt = None
+            if kd == 'BinaryOperator' and x.get('opcode') == '=':
+                tgt = x['inner'][0]
+            elif kd == 'CompoundAssignOperator':
+                tgt = x['inner'][0]
+            elif kd == 'UnaryOperator' and x.get('opcode') in ('++', '--'):
+                tgt = x['inner'][0]
+            elif kd == 'CallExpr':
+                cn = cast.callee_name(x)
+                if cn is None or not self.is_pure(cn, _stack + (name,)):
+                    res = False
+                    break
+            if tgt is not None:
+                t0 = cast.strip_all_casts(tgt)
+                # only plain local variables / fields of local structs may be assigned
+                while cast.kind(t0) == 'MemberExpr' and not t0.get('isArrow'):
+                    t0 = cast.strip_all_casts(t0['inner'][0])
+                if not (cast.kind(t0) == 'DeclRefExpr' and t0['referencedDecl'].get('kind') in ('VarDecl', 'ParmVarDecl')
+                        and t0['referencedDecl']['id'] not in gids):
+                    res = False
+                    break
+        c[name] = res
+        return res
 
     # -- background facts ------------------------------------------------------
     def unsigned(self, t):
@@ -753,6 +835,7 @@ class _Activation:
         return keys, clobber
 
     def havoc_for_loop(self, n, parts, st):
+        st0 = st.copy()            # state before the loop: source of the 'pre' values
         st = st.copy()
         keys, calls = self.assigned_keys(parts, st)
         tag = 'loop@%s' % cast.node_line(n)
@@ -777,7 +860,7 @@ class _Activation:
                     continue
                 rl = self.e.record_loads
                 self.e.record_loads = False
-                pre = self.read(st, key)
+                pre = self.read(st0, key)
                 self.e.record_loads = rl
                 for kk in [kk for kk in st.mem if kk == key or rooted_at(kk, ('&', key))]:
                     del st.mem[kk]
@@ -798,6 +881,9 @@ class _Activation:
                         root = nxt
                     st.havoc_roots.append(root)
         for c in calls:
+            cn = cast.callee_name(c)
+            if cn and (cn in PURE_FUNCTIONS or self.e.is_pure(cn)):
+                continue
             for a in c['inner'][1:]:
                 self.clobber_arg(st, a, tag)
         return st
@@ -1521,7 +1607,7 @@ class _Activation:
                 except Unsupported:
                     ef.extra = None
             s2.effects.append(ef)
-            if name not in PURE_FUNCTIONS and name not in self.e.pure:
+            if name not in PURE_FUNCTIONS and name not in self.e.pure and not (name and self.e.is_pure(name)):
                 for a, v in zip(argnodes, vals):
                     qt = cast.qual_type(a)
                     if '*' in qt or '[' in qt:
